@@ -13,6 +13,7 @@ import (
 	sdkerrors "cosmossdk.io/errors"
 	sdkmath "cosmossdk.io/math"
 	sdk "github.com/cosmos/cosmos-sdk/types"
+	sdkerrtypes "github.com/cosmos/cosmos-sdk/types/errors"
 
 	cctptypes "github.com/circlefin/noble-cctp/x/cctp/types"
 	ftftypes "github.com/circlefin/noble-fiattokenfactory/x/fiattokenfactory/types"
@@ -159,9 +160,27 @@ type DepProbe struct {
 
 	curTx string
 	seq   int
+	errN  int
 }
 
 func (d *DepProbe) Reset() { d.Log = d.Log[:0]; d.curTx = ""; d.seq = 0 }
+
+// injectedErr: the error handed back for an injected failure. Successive injections go through the error classes the
+// real dependency uses for that call (the module must treat every class as a failure), ending with a plain error.
+func (d *DepProbe) injectedErr(method string) error {
+	d.errN++
+	var pool []error
+	switch method {
+	case "Transfer":
+		pool = []error{ErrInjected, sdkerrors.Wrap(sdkerrtypes.ErrInsufficientFunds, "injected"), sdkerrors.Wrap(sdkerrtypes.ErrUnauthorized, "injected: blocked"), sdkerrors.Wrap(ftftypes.ErrPaused, "injected")}
+	case "Burn":
+		pool = []error{ErrInjected, sdkerrors.Wrap(ftftypes.ErrBurn, "injected"), sdkerrors.Wrap(ftftypes.ErrUnauthorized, "injected"), sdkerrors.Wrap(ftftypes.ErrPaused, "injected"), sdkerrors.Wrap(sdkerrtypes.ErrInsufficientFunds, "injected")}
+	case "Mint":
+		pool = []error{ErrInjected, sdkerrors.Wrap(ftftypes.ErrMint, "injected"), sdkerrors.Wrap(ftftypes.ErrSendCoinsToAccount, "injected"), sdkerrors.Wrap(ftftypes.ErrUnauthorized, "injected"), sdkerrors.Wrap(ftftypes.ErrPaused, "injected"), sdkerrors.Wrap(ftftypes.ErrInvalidCoins, "injected")}
+	}
+	pool = append(pool, fmt.Errorf("injected plain error"))
+	return pool[d.errN%len(pool)]
+}
 
 func (d *DepProbe) next(ctx context.Context) (tx string, seq int, fk FaultKind) {
 	tx = txKeyOf(ctx)
@@ -210,14 +229,14 @@ func (b bankProbe) SendCoinsFromAccountToModule(ctx context.Context, sender sdk.
 	d.Log = append(d.Log, call)
 	switch fk {
 	case FaultCleanErr:
-		err = ErrInjected
+		err = d.injectedErr("Transfer")
 	case FaultPanic:
 		d.Log[idx].Err = "panic"
 		panic("injected dependency panic (Transfer)")
 	case FaultErrAfterEffect:
 		err = d.bank.SendCoinsFromAccountToModule(ctx, sender, module, amt)
 		if err == nil {
-			err = ErrInjected
+			err = d.injectedErr("Transfer")
 		}
 	default:
 		err = d.bank.SendCoinsFromAccountToModule(ctx, sender, module, amt)
@@ -244,14 +263,14 @@ func (f ftfProbe) Burn(ctx sdk.Context, msg *ftftypes.MsgBurn) (resp *ftftypes.M
 	d.Log = append(d.Log, call)
 	switch fk {
 	case FaultCleanErr:
-		err = ErrInjected
+		err = d.injectedErr("Burn")
 	case FaultPanic:
 		d.Log[idx].Err = "panic"
 		panic("injected dependency panic (Burn)")
 	case FaultErrAfterEffect:
 		resp, err = d.ftf.Burn(ctx, msg)
 		if err == nil {
-			resp, err = nil, ErrInjected
+			resp, err = nil, d.injectedErr("Burn")
 		}
 	default:
 		resp, err = d.ftf.Burn(ctx, msg)
@@ -271,14 +290,14 @@ func (f ftfProbe) Mint(ctx sdk.Context, msg *ftftypes.MsgMint) (resp *ftftypes.M
 	d.Log = append(d.Log, call)
 	switch fk {
 	case FaultCleanErr:
-		err = ErrInjected
+		err = d.injectedErr("Mint")
 	case FaultPanic:
 		d.Log[idx].Err = "panic"
 		panic("injected dependency panic (Mint)")
 	case FaultErrAfterEffect:
 		resp, err = d.ftf.Mint(ctx, msg)
 		if err == nil {
-			resp, err = nil, ErrInjected
+			resp, err = nil, d.injectedErr("Mint")
 		}
 	default:
 		resp, err = d.ftf.Mint(ctx, msg)
